@@ -14,59 +14,64 @@ CHECKS = {}
 CHECKS["C01"] = dict(
     category="proof",
     text=("C-level hazards (null dereference of a typed accessor, signed overflow, out-of-range double->integer cast, foreign "
-          "exception, divergence) are OUTCOMES of the Lean model, not things it cannot do. Theorems (BlocV.Proofs.C01, 12): "
-          "evalUn_no_hazard and evalBin_no_hazard — every unary and all 20 binary operators, EVERY pair of values (nulls, typed "
-          "nulls, tables, tuples, every Int64, every double), both aliasing flags, never reach a hazard (hypothesis: table values "
-          "have level >= 1, shown necessary by evalBin_hazard_witness and preserved by evalBin_ok_tabOk); pure_no_hazard lifts this "
-          "to every expression tree incl. short circuit; evalBuiltin_no_hazard: all 53 modelled built-ins for all argument lists "
-          "(the 23 text/conversion ones, and since round 2 — statement unchanged, the case table behind it grew with C10 — num isnum "
-          "bool isnull typeof sign round max min mod atan2 clamp, 15 libm maps, pi ee phi); evalBuiltin_repaired_witnesses (substr/"
-          "subraw at INT64_MIN, hex pad count, abs, pow return values since their repair); int_of_decimal_no_hazard for all 2^64 "
-          "bit patterns. Tied to /repo by running EVERY built-in (generated keyword list) x arity x operand class (boundary values "
-          "always) x operand source, every operator and member method, and generated programs mutated at every token position + "
-          "byte edits, under ASan+UBSan+float-cast-overflow through Parser::parse, the C API and the statement-at-a-time path; "
-          "round 2 added the `session` family (several texts in ONE context: rejected declarations, then calls of every declared "
-          "signature; all 3-step histories x 3 paths) and the `self` family (an argument expression that changes the receiver of "
-          "the enclosing member call, e.g. x.put(2, x.delete(0).at(0))). ~143k cases; any outcome other than value / parse error / "
-          "runtime error is reported."),
-    design_ref="DESIGN.md §6 C01, §11, §12, notes/NOTES-p0102.md, notes/NOTES-C10.md",
-    note=(TRUST + "; sanitizers as the oracle for undefined behaviour; for the built-ins and members not covered by "
-          "a no-hazard theorem the verdict comes from the exhaustive sanitizer run (testing), with every crash either a listed "
-          "known finding (construct + crash class + witness; none is open under C01 after the repair rounds — the use-after-free "
-          "reachable from plain scripts through a held element reference is recorded under C05) or a violation. Stack/heap "
-          "exhaustion is outside the property's domain (bounded nesting / sizes in the generators). The parser itself is not "
-          "modelled here (C12/C13 model it): malformed text is covered by mutation testing only."),
-    technique="Lean 4 no-hazard theorems over a hand model (all operators, 53 built-ins, expression trees) + exhaustive construct x operand-class sanitizer run + token-level text mutation + session histories")
+          "exception, out-of-bounds access, divergence) are OUTCOMES of the Lean model, not things it cannot do. Theorems "
+          "(BlocV.Proofs.C01, 24): evalUn_no_hazard / evalBin_no_hazard (every operator, EVERY pair of values, both aliasing flags), "
+          "pure_no_hazard, evalBuiltin_no_hazard (all 53 modelled built-ins, all argument lists), int_of_decimal_no_hazard; round 3 — "
+          "the WHOLE interpreter model by mutual induction over its eight functions (Hoare-style predicate NH, state invariant WfSt: "
+          "deep table levels, tuple lengths, iterator index < table size, distinct iterator names): exec_no_hazard_partial, "
+          "eval_no_hazard_partial, run_no_hazard_partial — every Expr / Stmt constructor, every fuel, depth and budget, for code the "
+          "parser's forall lock accepts: the only hazard left is signedOverflow of substr / subraw on a string of >= 2^63 bytes (no "
+          "state invariant excludes 63 doublings; not reachable in a process); exec_no_hazard / run_no_hazard (no hazard at all for "
+          "programs without those two calls); builtins_in_interp_no_hazard; lock_hypothesis_needed (without the parser's refusal the "
+          "model reaches oob); and for TEXTS: elab_wf, text_no_hazard_partial (EVERY byte list, every fuel, no hypothesis: reader + "
+          "scanner + parser + elaboration + compile pass + lock + run end in a rejection, `unsupported`, a value, a BLOC error or out "
+          "of fuel), text_no_hazard. Tie: EVERY built-in (generated keyword list) x arity x operand class (boundary values AND every "
+          "null always kept) x operand source, every operator and member, programs mutated at every token position + byte edits "
+          "under ASan+UBSan+float-cast-overflow through Parser::parse, the C API and the statement-at-a-time path; families session, "
+          "self, parse-time-eval (expressions the PARSER evaluates: include / import paths, trusted and untrusted), fe (the mutated "
+          "texts also through the model front end: a model hazard is a violation, outcome classes must agree; ~11k texts), lock (22 "
+          "forall bodies, one unit and statement by statement). ~153k cases."),
+    design_ref="DESIGN.md §6 C01, §11, §12, §13, notes/NOTES-p0102.md, notes/NOTES-C10.md, notes/NOTES-C01X.md, notes/NOTES-C01X2.md",
+    note=(TRUST + "; sanitizers as the oracle for undefined behaviour. The whole-program theorems are about the MODEL: its tie to "
+          "the C++ is the differential run (for built-ins and members the exhaustive sanitizer run decides, every crash either a "
+          "listed finding — none open under C01; the use-after-free through a held element reference is recorded under C05 — or a "
+          "violation). text_no_hazard is about the batch runner (the statement-at-a-time runner has the same lock refusal, tested, no "
+          "theorem); the front end leaves out some semantic checks of the C++ parser (function existence / arity, member argument "
+          "types): the model then runs texts the library rejects, counted in the evidence; the lock is tested after the compile pass, "
+          "so the reported code of a doubly wrong text may differ. Repaired this round: run-time errors of include / import path "
+          "expressions escaping the parser (8b0461e, c78eeea). Stack/heap exhaustion is outside the property's domain."),
+    technique="Lean 4 no-hazard theorems over a hand model (operators, 53 built-ins, the whole interpreter by mutual induction, whole source texts through the model front end) + exhaustive construct x operand-class sanitizer run + token-level text mutation + session histories")
 
 CHECKS["C02"] = dict(
     category="proof",
-    text=("Static typing model (Model/Typing.lean: typeChecking/assertTypeUniform, the operators' type() rules, built-in signature "
-          "and result-type tables GENERATED from every builtin_*.cpp/.h on each run) and, since round 2, a source-text front end "
-          "for the model (Model/Elab.lean: parse tree -> interpreter program), the `$` / iterator constraint (Model/Safety.lean: "
-          "Symbol::check_safety, registerSymbol, the type part of storeVariable) and both compile disciplines (Model/Stepwise.lean: "
-          "runBatch, runStepwise). Theorems (BlocV.Proofs.C02, 34): bin_type_sound (15 binary operators: an .ok result has EXACTLY "
-          "the static type), bin_type_sound_static_partial (all 20, outside the decidable region binTypeGap; bin_type_gap_exact), "
-          "un_type_sound, accept_implies_no_type_error_partial (+ negations), builtin_type_sound_partial (16 built-ins); NEW: "
-          "expr_type_sound_partial (every expression over literals, variables and all operators, any nesting, every well-typed "
-          "store: the value's type is the static type outside the run-time trace of the gap; expr_type_sound_fails inside it), "
-          "safety_preserves_major(_partial), for_iterator_keeps_integer, store_preserves_major (an accepted program keeps the kind "
-          "of every `$` / protected symbol; safety_table_major_fails: a `$` table may change its element type), "
-          "stepwise_eq_batch_partial + typeOf_stable (the two compiles agree wherever symbol types are the types of the values) "
-          "with stepwise_eq_batch_fails, elab_forgets_parens, src_roundtrip_expr / _program_partial / _runs. Tie: static vs "
-          "run-time type node by node (every operator, ~45 built-ins x operand classes x typed variable | opaque result); every "
-          "generated program's SOURCE TEXT run by the model (driver src / srcstep) and the library: families fe, fe-mut, fe-tables, "
-          "fe-safety (15x15 literal classes), fe-iter, fe-forall, fe-store, fe-dead(-step), fe-hand(-step) (100 hand texts covering "
-          "every statement / expression constructor); one unit vs statement-at-a-time now predicted by the model; ~35k cases."),
-    design_ref="DESIGN.md §6 C02, §11, §12, notes/NOTES-p0102.md, notes/NOTES-C02FE.md",
-    note=(TRUST + ", extract/sigs.py. The full statement is FALSE on this tree: 20 recorded findings by operator / built-in cell "
-          "(arithmetic with an untyped null / opaque operand is typed decimal statically), C02.safety_table_major_changes, "
-          "C02.stepwise_dead_branch_typed_from_value (a dead statement with an opaque operand compiles as one unit, not statement by "
-          "statement). expr_type_sound_partial stops at operators: built-in calls beyond the 16 node theorems, members and user "
-          "calls are decided by the exhaustive static/dynamic comparison (testing). The execution half of stepwise = batch is not "
-          "proved. The front end has no symbol table / static type check of its own (texts the C++ rejects for such reasons are "
-          "counted, not compared) and answers `unsupported` for trace, put, typed declarations, matches, x@N outside error@N, some "
-          "constants (14 of the 100 hand texts, none of the generated ones); `locked` is not in Safety."),
-    technique="generated typing tables + Lean 4 type-soundness / constraint theorems over a hand model with exact gap regions + source-text front end run against the library + exhaustive static/dynamic type comparison")
+    text=("Static typing model (Model/Typing.lean + built-in signature tables GENERATED from builtin_*.cpp/.h), a source-text front "
+          "end (Model/Elab.lean), the `$` / iterator constraint (Model/Safety.lean) and both compile disciplines (Model/Stepwise.lean). "
+          "Round 3 — translator tie for the operators: extract/optypes.py regenerates on every run, from op_*.cpp, "
+          "parse_expression.cpp and member_*.cpp, the type() chains, the value() case labels, the assertType calls of every "
+          "production and the receiver / value-argument switches of the member methods (Gen/OpTypes.lean, Gen/MemberSigs.lean; a "
+          "statement outside its condition language is refused with file:line); Proofs/C02G proves the hand rules EQUAL to the "
+          "tables for all types / values: typeBin/typeUn/acceptBin/acceptUn_eq_source, value_case_labels_eq_model_cells, "
+          "evalBin_typeerror_iff_not_in_source_table (+ lazy, unary, ordering variants), relational_null_first, "
+          "memberReceiver/Lock/Args_eq_source. Also new: the RUN-TIME safety flag as a machine over loop events "
+          "(safety_restored_after_loop, dollar_constraint_survives_loops, safety_after_unit) and the exact region of the operator "
+          "findings (kf_op_region_eq_gap, static_eq_runtime_outside_kf_region). With the earlier bin_type_sound(_static_partial), "
+          "expr_type_sound_partial, safety_preserves_major(_partial), stepwise_eq_batch_partial, src_roundtrip_* : 55 theorems. Tie: "
+          "static vs run-time type node by node (Expression::type() is now compared with the model; a mismatch is tolerated only "
+          "inside the proved region); gen-binop / gen-unop / gen-member / gen-member-arg (~14.7k: library vs regenerated table vs "
+          "hand model; when a C02G theorem stops checking the report names it and an exhaustive operator x operand-class matrix "
+          "searches the failing input); safety-loops (867: `$` variables and iterators x loop shapes x exit routes x later units x "
+          "three paths; flags of every symbol compared after every unit); source texts run by model and library (fe, fe-mut, "
+          "fe-tables, fe-safety, fe-iter, fe-forall, fe-store, fe-dead, fe-hand); one unit vs statement-at-a-time. ~51k cases."),
+    design_ref="DESIGN.md §6 C02, §11, §12, §13, notes/NOTES-p0102.md, notes/NOTES-C02FE.md, notes/NOTES-GENOPS.md, notes/NOTES-C02R3.md",
+    note=(TRUST + ", extract/sigs.py, extract/optypes.py (its reading of the source is tied to the compiled code by the gen-* "
+          "families; a semantically neutral rewrite of the source can break the tie without a failing input — it did once, on our "
+          "own repair 443d77e). Still hand-transcribed: typeChecking / assertTypeUniform, the collection branch of member arguments, "
+          "set@, complex. The flag machine is driven by event traces the generator knows by construction, not derived from the "
+          "interpreter model's own run. The full statement is FALSE on this tree: 20 recorded findings by operator / built-in cell "
+          "(the 5 operator ones with a decidable region, the 15 built-in ones per built-in), C02.safety_table_major_changes, "
+          "C02.stepwise_dead_branch_typed_from_value. expr_type_sound_partial stops at operators; the execution half of stepwise = "
+          "batch is not proved; the front end has no symbol table of its own and answers `unsupported` for some constructs."),
+    technique="generated typing and operator tables (translator tie) + Lean 4 proof over a hand model (hand rules = generated tables; type soundness with exact gap regions; flag machine) + source-text front end run against the library + exhaustive static/dynamic type comparison")
 
 CHECKS["C03"] = dict(
     category="proof",
@@ -108,31 +113,33 @@ CHECKS["C04"] = dict(
 CHECKS["C05"] = dict(
     category="proof",
     text=("Two Lean 4 storage-level models. Model/Store.lean (cells with the LVALUE flag, Pool::keep, LVAL1/LVAL2, which operand each "
-          "operator returns or overwrites, storeVariable): eval_frame, eval_refines (storage level computes exactly the value-level "
-          "result), eval_pool_discipline, eval_after / eval_twice_equal / eval_error_repeatable, assign_copies, assign_independent, "
-          "assigns_leave_others. Round 2: Model/StoreX.lean extends it to locations (root, path) into containers, at / @N returning "
-          "the element itself, in-place members put/insert/delete/concat/set@ with MemberExpression::receiver() / isStorage, "
-          "tab / tup construction (clone or move per item), assignment, user calls (arguments bound in the callee context, "
-          "saveReturned), with a write log. Theorems (BlocV.Proofs.C05, 40): evalX_frame (under the flag invariant every variable "
-          "slot / constant node NOT in the log is untouched as a whole cell, no flag changes; ALL expressions), "
-          "flagInvX_preserved (statements, callee contexts), later_ops_leave_others (after b = a, tab(n,a), tup(a,..), f(a) no later "
-          "statement sequence rooted at one is visible through the other), assign_var_copies, storage_root, "
-          "inplace_only_through_storage (an in-place member writes into a variable ONLY through a storage receiver rooted there), "
-          "const_receiver_cloned, passthrough_cloned; static footprint fpE computed from the text: evalX_logs (dynamic log ⊆ fpE), "
-          "evalX_frame_static, storage_not_cst, recv_root_in; dangling_witness (negative). Tie: node dumps (value, type, flag of "
-          "every slot) x3 evaluations; driver c05x compares outcome, values and flags per step; families inplace, element_receiver, "
-          "constant_receiver, element_read, construct, alias_sequence, dangling, arg_forms (892: member x receiver x payload form x "
-          "position form), iterator_assign_then_read, builtin_passthrough (83, implementation-only oracle: only assignment targets "
-          "and storage receivers may change); random alias programs incl. tables vs Model/Interp. ~23k cases."),
-    design_ref="DESIGN.md §6 C05, §11, §12, notes/NOTES-p0305.md, notes/NOTES-C05.md",
-    note=(TRUST + "; the per-operator placement table and the member paths are transcribed by hand and their observable "
-          "consequences tested. Refinement to the value level and re-evaluation equality are proved for operator expressions only "
-          "(for the extended language: tested by the oracle `same statement twice from an equal read-state`). Element flags are a "
-          "write-before-read cache in the C++ and are derived from the root in the model; built-ins and forall are not in the "
-          "storage model. Open finding C05.dangling_element_reference (a reference into a table held while a later operand changes "
-          "the same variable in place: use after free; `hazard oob` in the model, the check tolerates a non-manifesting run). "
-          "Objects are shared by reference as documented (C17)."),
-    technique="Lean 4 proof (frame, flag-invariant and footprint theorems over a storage-level hand model; one induction on fuel via a preservation predicate closed under bind) + dump-based differential correspondence per step")
+          "operator returns or overwrites, storeVariable): eval_frame, eval_refines, eval_pool_discipline, eval_after / "
+          "eval_twice_equal, assign_copies, assign_independent. Model/StoreX.lean: locations (root, path) into containers, at / @N "
+          "returning the element itself, in-place members with MemberExpression::receiver() / isStorage, tab / tup, assignment, user "
+          "calls, a write log; round 3: built-in calls (XExpr.bi) with a placement table for the 17 built-ins of arity >= 2 (result "
+          "swapped into a temporary argument cell LVAL2 / LVAL1, handed through, or freshly allocated — read off each value()). "
+          "Theorems (BlocV.Proofs.C05, 42): evalX_frame (under the flag invariant every variable slot / constant node NOT in the "
+          "log is untouched as a whole cell; ALL expressions incl. built-in calls), flagInvX_preserved, later_ops_leave_others, "
+          "assign_var_copies, storage_root, inplace_only_through_storage, const_receiver_cloned, passthrough_cloned; static "
+          "footprint: evalX_logs (dynamic log within fpE), evalX_frame_static, storage_not_cst, recv_root_in; NEW "
+          "reuse_only_temporaries (every placement combinator in use, every list of argument cells: variables and constants are "
+          "identical afterwards, nothing logged — false for a seeded merged combinator), builtin_call_frame; dangling_witness "
+          "(negative). Tie: node dumps x3 evaluations; driver c05x per step (outcome, values, flags); families inplace, "
+          "element_receiver, constant_receiver, element_read, construct, alias_sequence, dangling, arg_forms (892), "
+          "iterator_assign_then_read, builtin_passthrough, and builtin_arg_sources (1058: EVERY built-in with >= 2 argument slots — "
+          "names read from the generated signature table — x every pattern of argument sources {variable, element, item, "
+          "constant, operator temporary, call temporary}; the statement parsed once and run 3x so that a clobbered constant node "
+          "is re-read; model comparison + the property on the library alone: only the target may change); random alias programs "
+          "vs Model/Interp. ~24k cases."),
+    design_ref="DESIGN.md §6 C05, §11, §12, §13, notes/NOTES-p0305.md, notes/NOTES-C05.md, notes/NOTES-SEEDS3.md",
+    note=(TRUST + "; the placement tables (operators, members, built-ins) are transcribed by hand and their observable "
+          "consequences tested; hand-through vs LVAL1 differ only in the flag of the RESULT cell, which no dump shows; the model "
+          "evaluates every argument before the built-in looks at any (the C++ skips later arguments in some null branches: "
+          "unobservable for effect-free arguments, which is what is generated); input / read write into their first argument by "
+          "design and are outside. Refinement to the value level and re-evaluation equality are proved for operator expressions "
+          "only; operators with (constant | element, temporary) at storage level are hand-picked cases, not a matrix; forall is "
+          "not in the storage model. Open finding C05.dangling_element_reference."),
+    technique="Lean 4 proof (frame, flag-invariant, footprint and placement theorems over a storage-level hand model; one induction on fuel via a preservation predicate closed under bind) + dump-based differential correspondence per step")
 
 CHECKS["C06"] = dict(
     category="proof",
@@ -170,15 +177,16 @@ CHECKS["C07"] = dict(
           "are modelled (name | keyword, message from the GENERATED format table with the what() buffer size, code): "
           "error_of_user_raise, error_of_builtin_throwable, error_of_clear_record, eval_error_item; the record is taken on entry of a "
           "block and restored when a clause ends (repairs 72036d1, 8256736): inner_handled_error_restores_record, "
-          "record_kept_without_clauses, inner_block_keeps_enclosing_record, ok_run_keeps_record (ANY code that ends without error "
-          "leaves the record alone), error_describes_clause_error_at_every_point (after any prefix of a clause body that ended "
+          "record_kept_without_clauses, inner_block_keeps_enclosing_record, ok_run_keeps_record (full strength: ANY code that ends "
+          "without error leaves the record alone; no flatness proviso since the model follows 8256736), "
+          "record_restored_after_failed_inner_clause_witness, error_describes_clause_error_at_every_point (after any prefix of a clause body that ended "
           "normally `error` still is the clause's error; Lemmas/ErrRec.lean, two mutual inductions), failed_handler_keeps_record; "
           "output_only_grows / output_before_error_preserved (frame induction over the whole interpreter); the interactive runner "
           "(apps/cli_parser.cpp loop, repaired by 3db7ed2): interactive_statement_outcome, interactive_runner_no_residue. Tie: "
           "nestings x failing operation x handler sets + probe program; errrec (432: failing op x second failing op x clause names x "
           "8 shapes, each followed by a program reading the record); interactive (622 sessions through the probe op istep: outcomes, "
           "output, variables, control depth); source-shape tie on the cli loop. ~3.1k programs."),
-    design_ref="DESIGN.md §6 C07, §11, §12, notes/NOTES-p0608.md, notes/NOTES-INT.md",
+    design_ref="DESIGN.md §6 C07, §11, §12, §13, notes/NOTES-p0608.md, notes/NOTES-INT.md",
     note=(TRUST + "; exec level and the symbol constraint flags have no counterpart in the value-level model: their state after an "
           "error is observed (dump after every run + probe program), not proved; the probe op istep is a hand copy of the cli loop, "
           "tied by a source-shape check; a top-level forall / return under the interactive runner is unmodelled; C++ unwinding "
@@ -189,26 +197,29 @@ CHECKS["C07"] = dict(
 
 CHECKS["C08"] = dict(
     category="proof",
-    text=("Lean 4 theorems (BlocV.Proofs.C08, 20): a call equals finishCall(caller, body run from calleeInit(f, argument values)); "
+    text=("Lean 4 theorems (BlocV.Proofs.C08, 22): a call equals finishCall(caller, body run from calleeInit(f, argument values)); "
           "call_independent_of_caller / call_determined_by_argument_values — result, output and callee run depend on the caller "
-          "only through the output stream and work budget, for the full callFunc incl. argument evaluation — and, new, "
-          "call_independent_of_history (any two call histories, failing calls included; full strength since the repair e310d98 of "
-          "the error record surviving in a recycled context: history_witness_fixed); callee_cannot_modify_caller (incl. the "
-          "caller's error record), caller_untouched; locals_start_unset; argument_bound_by_value_all (n parameters with distinct "
-          "names); overload_by_arity, overloads_coexist; failing_argument_fails_call; recursion_limit (constant generated from "
-          "functor_manager.h), recursion_limit_exact and direct_recursion_stops_at_limit (symbolic: every `function f() return "
-          "f()` fails after exactly RECURSION_LIMIT - d nested calls). Tie: the same probe call after generated call histories "
-          "(conditionally assigned / re-typed locals, recursion to the limit, mutual recursion, failing calls, overloads, "
-          "self-calling arguments); round 2: errrec-history (294: functions reading the record at entry after histories with "
-          "failing clauses, recursion, failing arguments), end-forms (a function ending in 12 ways — valueless return, falling off "
-          "the end, return inside loops / blocks / handlers, raise handled or escaping — every ordered pair probed a third time, "
-          "random histories, also through a caller), depth-history, receiver-forms (in-place members on non-storage and chained "
-          "receivers). ~1.8k programs."),
-    design_ref="DESIGN.md §6 C08, §11, §12, notes/NOTES-p0608.md, notes/NOTES-INT.md",
-    note=(TRUST + "; the model creates a fresh callee state per call, the C++ recycles contexts and resets them (b7b8574, e310d98): "
-          "their equivalence is exactly what the history families test. random()/stdin are documented global inputs and not "
-          "modelled. A program that declares one signature twice with a call in between resolves the call differently from the "
-          "model's collectFuncs (C14's World models the re-installation; the generators declare each signature once)."),
+          "only through the output stream and work budget, for the full callFunc incl. argument evaluation; "
+          "call_independent_of_history (any two call histories, failing calls included; full strength since repair e310d98); "
+          "callee_cannot_modify_caller (incl. the caller's error record), caller_untouched; locals_start_unset; "
+          "argument_bound_by_value_all; overload_by_arity, overloads_coexist; failing_argument_fails_call; recursion_limit (constant "
+          "generated from functor_manager.h), recursion_limit_exact, direct_recursion_stops_at_limit; round 3: "
+          "runaway_cycle_stops_at_limit (ANY cycle of functions — direct, mutual, longer — bound in any table, any exception "
+          "clauses, any entry depth d, any caller state: exactly RECURSION_LIMIT - d levels run, then the error; nothing of a "
+          "deeper level runs) and recursion_limit_any_history (after ANY statement list run before — finished recursions, failed "
+          "calls, at the limit or not — a call at the limit fails at once with the caller's state untouched, and a runaway cycle "
+          "runs exactly as from a fresh state). Tie: the same probe call after generated call histories (conditionally assigned / "
+          "re-typed locals, recursion to the limit, mutual recursion, failing calls, overloads, self-calling arguments); "
+          "errrec-history (294), end-forms (a function ending in 12 ways, ordered pairs, histories, through a caller), "
+          "depth-history, receiver-forms; round 3: reclimit-after-cache (168 two-program cases: 12 histories that fill or "
+          "exhaust the pools of recycled call contexts x 7 wrapper depths x direct / mutual; model comparison AND a model-free "
+          "oracle: exactly 255 - k chain lines, the same for every history). ~1.9k programs."),
+    design_ref="DESIGN.md §6 C08, §11, §12, §13, notes/NOTES-p0608.md, notes/NOTES-INT.md, notes/NOTES-SEEDS3.md",
+    note=(TRUST + "; the model creates a fresh callee state per call and has no pool of contexts, the C++ recycles contexts and "
+          "resets them (b7b8574, e310d98): their equivalence — incl. the depth test being independent of the pool — is exactly what "
+          "the history families test. random()/stdin are documented global inputs and not modelled. A program that declares one "
+          "signature twice with a call in between resolves the call differently from the model's collectFuncs (C14's World models "
+          "the re-installation; the generators declare each signature once)."),
     technique="Lean 4 proof over an interpreter hand model + call-history differential correspondence")
 
 CHECKS["C09"] = dict(
@@ -269,30 +280,33 @@ CHECKS["C11"] = dict(
     category="proof",
     text=("Lean 4 model of what a parse does to the context, as a machine over events (registerSymbol with its backup list, "
           "FOR/FORALL/IF/WHILE/BEGIN clause entry and exits with the safety/lock flags and the exec stack, createOrReplace/rollback, "
-          "catch-block unwinding, parsingEnd's reverse-order restore); round 2 added the clause entries AS WRITTEN (without assumed "
-          "guards), statement heads by NAME (parseTextN), HISTORIES of texts in one context carrying left-over names and "
-          "FunctorManager::_backed, and a session model (Model/Session.lean: parse tables + interpreter state). Theorems "
-          "(BlocV.Proofs.C11, 26) for EVERY event sequence / context / structure hash: parsingEnd_restores, clause_flags_restored, "
-          "reject_restores_symbols, accept_keeps_flags, reject_restores_functions_partial, failed_redefinition_rolled_back_*, "
-          "context_usable_after_reject; NEW for_guard_derived / forall_guard_derived (the guards follow from registerSymbol), "
-          "statement_level_is_id_level, reject_restores_flags_nested (any nesting depth, both exits), parse_independent_of_fbacked, "
-          "later_parse_independent_of_rejected (the simulation: a later text not mentioning names only the rejected text introduced "
-          "parses exactly as without it), history_without_rejected(_anywhere), runHistory_invariants, "
-          "session_history_without_rejected / reject_then_run_eq_run (same verdicts AND the same interpreter run), "
-          "later_parse_depends_on_leftover_names (the exclusion is needed; witness confirmed on the library). Negation at the "
-          "complete-redefinition witness: one recorded finding. Tie: context snapshots at every reader call explained as model "
-          "events; truncation / corruption at EVERY token through library, C API and interactive path; twin probes; histories of "
-          "2..4 texts (shapes RV VR VRV RRV VRVR RVRV, every truncation of every pool text) through driver hist with the twin "
-          "history without the rejected text, three execution paths, sess; the loop heads read off the trace must be those of the "
-          "text. ~33k cases."),
-    design_ref="DESIGN.md §6 C11, §11, §12, notes/NOTES-C11.md",
+          "catch-block unwinding, parsingEnd's reverse-order restore; clause entries as written, statement heads by name, HISTORIES "
+          "of texts in one context, a session model with the interpreter state); round 3: the journal of function-table changes per "
+          "parse (FunctorManager::parsingMark / parsingRevert, repair cbd4980) — St.fmark, St.journal, revertFns, rejectCtx. Theorems "
+          "(BlocV.Proofs.C11, 32) for EVERY event sequence / context / structure hash: parsingEnd_restores, clause_flags_restored, "
+          "reject_restores_symbols, accept_keeps_flags, context_usable_after_reject; reject_restores_functions at FULL strength (no "
+          "hypothesis: after a rejected text the function table is the one the parse started with — names, arities, functor "
+          "identities, no entry more; the journal is undone newest first, the wrong order is a counter-example), "
+          "reject_restores_functions_statement_level, leftOver_no_function, complete_redefinition_reverted_witness (the former "
+          "finding as a positive theorem), later_parse_same_function_table, session_reject_leaves_no_declaration; "
+          "for/forall_guard_derived, statement_level_is_id_level, reject_restores_flags_nested, parse_independent_of_fbacked; "
+          "later_parse_independent_of_rejected, history_without_rejected(_anywhere), session_history_without_rejected, "
+          "reject_then_run_eq_run now for EVERY rejected text (no finding region left); later_parse_depends_on_leftover_names. Tie: "
+          "context snapshots at every reader call explained as model events; truncation / corruption at EVERY token through "
+          "library, C API and interactive path; twin probes; histories of 2..4 texts with the twin history without the rejected "
+          "text, three execution paths, sess; loop heads of the trace = those of the text; the region of the repaired finding is "
+          "still generated (~750-1650 single-text cases per path, ~66 histories); a valid text that crashes while it RUNS (call "
+          "before redefinition: W.callbefore) is a violation. ~33.5k cases; no known finding."),
+    design_ref="DESIGN.md §6 C11, §11, §12, §13, notes/NOTES-C11.md, notes/NOTES-C11FIX.md",
     note=(TRUST + "; the event vocabulary comes from reading the five parse_clause functions, tied by the trace correspondence; "
-          "`aligned` (the three pool columns have one length) is a hypothesis kept by every text (history_keeps_invariants); the "
-          "exclusion `T does not mention R's left-overs` is on statement heads in the model, expression reads are excluded by a "
-          "token-level test in the check; removing SEVERAL rejected texts at once is not stated; the session model's run-time half "
-          "is tied by test (sess), texts with typed declarations are outside the front end; function identity = Functor address "
-          "within a case. Open: C11.complete_redefinition_survives_reject."),
-    technique="Lean 4 proof over a hand model (event machine, lift simulation over histories) + trace-refinement correspondence (model-explained snapshots) + differential twin runs",
+          "`aligned` is a hypothesis kept by every text; the exclusion `T does not mention R's left-overs` is on statement heads in "
+          "the model, expression reads are excluded by a token-level test in the check; removing SEVERAL rejected texts at once is "
+          "not stated; the call-context cache of a function entry (cleared on replace and on revert) is not in the model: tied by "
+          "probe programs under ASan (the clearCache of parsingRevert matters only for a body CALLED at parse time: not generated); "
+          "the journal does not nest (no caller parses during a parse on the same root context today); include is not generated by "
+          "these families (C01's parse-time-eval and C13's path families read through it); function identity = Functor address "
+          "within a case."),
+    technique="Lean 4 proof over a hand model (event machine with journal, lift simulation over histories) + trace-refinement correspondence (model-explained snapshots) + differential twin runs",
 )
 
 CHECKS["C12"] = dict(
@@ -321,23 +335,35 @@ CHECKS["C12"] = dict(
 
 CHECKS["C13"] = dict(
     category="proof",
-    text=("Lean 4 model of the scanner as per-chunk maximal munch over the 28 rules of tokenizer.lex with start conditions, "
-          "chunking as tokenizer_buf, reassembly as Parser::next_token and the line readers; theorems (BlocV.Proofs.C13, 11): for "
-          "EVERY text and EVERY fragmentation in which each chunk but the last ends after a newline the chunked token stream "
-          "equals the whole-text stream (lex_line_aligned, pop_line_aligned, fragmentation_independent), lineReader max yields "
-          "such a fragmentation iff no line exceeds max (lineReader_aligned), CRLF = LF, hence layout independence for texts "
-          "with lines <= 1023 bytes and no NUL; the full property is FALSE on this tree and its negation is proved at "
-          "concrete witnesses (recorded known findings). Tied to /repo by comparing Parser::pop() token streams under every "
-          "single split, multi-splits, fixed sizes, the library's own StringReader and the command line's ReadFile "
-          "(apps/read_file.cpp on a FILE*), in LF and CRLF form incl. lines whose CR / LF fall on the 1023-byte buffer edge, and by "
-          "comparing the rule list with tokenizer.lex; ~121k cases. Model, proofs and check unchanged in round 2; C12 "
-          "(Lemmas/Scan.lean) and C19 (reader_delivers_every_byte for apps/read_file.cpp) build on this model."),
-    design_ref="DESIGN.md §6 C13, §11, §12.3, notes/NOTES-C13.md",
-    note=(TRUST + "; the flex-generated automaton (lex._tokenizer.c) is compared with the model on token streams, "
-          "not translated; StringReader and ReadFile share one model reader (lineReader 1023 after CR removal). The private reader "
-          "of included sources (statement_include.cpp, a copy of apps/read_file.cpp) is read by no family: a seeded byte loss "
-          "there was missed (DESIGN §12.3). Open: C13.unaligned_chunk_splits_token, C13.nul_truncates_chunk, C13.reader_drops_lone_cr."),
-    technique="Lean 4 proof over a hand model (chunked lexer = whole lexer on line-aligned fragmentations) + token-stream correspondence")
+    text=("Lean 4 model of the scanner as per-chunk maximal munch over the 28 rules of tokenizer.lex with start conditions, chunking "
+          "as tokenizer_buf, reassembly as Parser::next_token; round 3: EVERY reader of source text transcribed call by call "
+          "(Model/LexReaders.lean): StringReader (C API, bloc -e), apps ReadFile (bloc FILE, bloc -, load), the private ReadFile of "
+          "include, bloc_readstdin and the readline branch of the interactive loop. Theorems (BlocV.Proofs.C13, 33): "
+          "lex_line_aligned, pop_line_aligned, fragmentation_independent (chunks ending after a newline: chunked = whole), "
+          "lineReader_aligned, CRLF = LF; string/file/includeReader_eq_lineReader, stdinReader / readlineLine_eq_lineSplit, "
+          "interactive_readers_agree, *_delivers_every_byte for all six readers (concatenation = text minus CRs, every chunk "
+          "non-empty and <= max, every max >= 1), eager_reader_drops_a_byte (a seeded loop shape), readers_same_chunks; "
+          "lex_token_aligned_iff — for NUL-free a, b: chunks [a, b] scan like a ++ b IF AND ONLY IF safeSplit a b (decidable without "
+          "the chunked scanner: no rule matches across the cut, beginning-of-line rule indifferent): exactly the region where one "
+          "cut is harmless; lex_cuts_aligned / pop_cuts_aligned (any number of cuts), unsafe_split_witnesses (15 token classes), "
+          "literal_across_chunks / literal_through_reader (a plain literal over any line-aligned chunks, also chunks that are just a "
+          "newline, is ONE token with every byte). The full property is FALSE on this tree (proved negations, recorded findings). "
+          "Tie: Parser::pop() token streams under every single split, multi-splits, fixed sizes, every reader, LF / CRLF, CR / LF on "
+          "the 1023-byte edge; reader_* (every read call of the library vs the model, buffer of exactly max bytes); path_* (164 "
+          "programs with a number / identifier / escape / operator / comment on every multiple of 1023, dense and empty-line "
+          "texts, through include, C API, both Parser::parse readers, the REAL bloc FILE / bloc - / bloc -i: each must behave like "
+          "the library fed with the model's chunks); safe => library = whole-text Spec also inside the finding's region (iff "
+          "evaluated on ~77k two-chunk cases per run); rule list, the three read bodies and tokenizer_buf (in tokenizer.lex AND "
+          "lex._tokenizer.c) compared with the transcribed text. ~127k cases."),
+    design_ref="DESIGN.md §6 C13, §11, §12.3, §13, notes/NOTES-C13.md, notes/NOTES-C13R2.md, notes/NOTES-C13R3.md",
+    note=(TRUST + "; the flex-generated automaton (lex._tokenizer.c) is compared with the model on token streams, not "
+          "translated; the region of the recorded finding is pinned to the recorded 1023-byte chunk (a generated buffer size that "
+          "differs makes texts fitting 1023 bytes violations); the converse of lex_cuts_aligned for lists of cuts is not attempted; "
+          "literals with escapes over chunks are covered by pop_line_aligned and the families only; bloc -e and the CLI command "
+          "load use the same reader classes and are not exercised separately. Observed, not a finding of this property: the "
+          "interactive readers do not drop CR. Open: C13.unaligned_chunk_splits_token, C13.nul_truncates_chunk, "
+          "C13.reader_drops_lone_cr."),
+    technique="Lean 4 proof over a hand model (chunked lexer = whole lexer exactly on safe cuts; every reader delivers every byte) + token-stream, reader-call and execution-path correspondence")
 
 CHECKS["C14"] = dict(
     category="proof",
@@ -373,27 +399,36 @@ CHECKS["C14"] = dict(
 CHECKS["C15"] = dict(
     category="proof",
     text=("Lean 4 handle state machine of blocc/bloc_capi.h (contexts, clones, symbols, values with caller/library ownership, "
-          "expressions, executables, process-wide error record, per-context epochs). Proved (BlocV.Proofs.C15, 21) for ALL call "
-          "sequences of the model: library_pointer_stable (a pointer handed out at epoch e denotes the same unmodified variable cell "
-          "in every later state whose epoch is still e), error_record_contract (a failing call leaves exactly its code in "
-          "bloc_errno/strerror; successful non-parse calls do not touch it; successful parses clear it), accessor_contract (all "
-          "eight accessors: succeeds iff the type matches, data NULL iff null — full since the repair of bloc_literal/bloc_tabchar), "
-          "api_script_agree (both directions), context_reusable_after_error (rejected text / failing run). Tie to the code: "
-          "differential run of state-machine call sequences (<=40 quick, <=200 thorough) through the real C API only, under "
-          "ASan+UBSan+LSan, every call's result, out-parameters, re-read library pointers and errno/strerror compared with the "
-          "model; assign-then-read families (a library-owned variable changed through bloc_assign_* and then only read by scripts "
-          "keeps value and type) and failing FUNCTION declarations in the rejected-text catalog (no function is left behind, also "
-          "right after a successful redefinition). ~4.6k sequences. Model, proofs and check unchanged in round 2."),
-    design_ref="DESIGN.md §6 C15, §11, §12.3, notes/NOTES-C15.md, notes/NOTES-r15.md",
-    note=("PARTIAL. Memory reclamation is NOT modelled: 'no memory remains' is LeakSanitizer's verdict on the generated sequences "
-          "and on every truncation of 7 programs, not a theorem. 8 findings open (errno 0 on EOF, store nulls scalar sources, item "
-          "pointers dangle after store, use-after-free when an executable/clone holding a function outlives the declaring context's "
-          "purge/free, 4 leak sites in parser error paths); 3 repaired (the two accessor null dereferences, the callee-context leak "
-          "when an argument raises); 1 candidate recorded by C14's index-linking model and not exercised here (bloc_execute2 with an "
-          "executable compiled against other tables). Rejected texts come from a catalog inside the model, the parser is not "
-          "modelled here: the catalog has no type error on the left operand of `**`, so a seeded double delete on that path was "
-          "missed (DESIGN §12.3). bloc_break from a second thread, trace and plugins are outside. " + TRUST + "."),
-    technique="Lean 4 proof over a transcribed state machine (case analysis over 38 ops + invariant by induction on sequences) "
+          "expressions, executables, process-wide error record, per-context epochs and generations); round 3: 1200 operator texts "
+          "GENERATED in Lean from the typing model (25 binary + 5 unary spellings x 5 operand forms x type pairs, each as source and "
+          "AST with verdict, error code and position computed in the model). Proved (BlocV.Proofs.C15, 39) for ALL call sequences: "
+          "library_pointer_stable, error_record_contract, accessor_contract, api_script_agree, context_reusable_after_error; NEW "
+          "typed_rejection_iff / _prog (a generated text is rejected with TYPE_MISMATCH and NULL exactly when Typing.acceptBin / "
+          "acceptUn refuses it, at the computed position), rejected_parse_contract_expr / _prog (NULL, own code, the five host "
+          "tables unchanged, only the epoch of that context moves), rejected_parses_touch_nothing (ANY sequence of rejected parses "
+          "from ANY state), usable_after_reject, accessor_call_contract / accessor_contract_along_sequences, held_run_is_noop, "
+          "stop_held_until_release, nothing_runs_while_held, purge_ends_handles_forever with handle_generations_below_clock and "
+          "purged_handles_dead_in_reachable_states (no hypothesis left: every handle of a purged context is unusable after ANY later "
+          "sequence), cross_context_isolation / cross_context_pointers (calls that do not work IN context d leave its slot "
+          "identical). Tie: state-machine call sequences (<=40 quick, <=200 thorough) through the real C API only, under "
+          "ASan+UBSan+LSan, every result, out-parameter, re-read pointer and errno/strerror compared; assign-then-read, failing "
+          "FUNCTION declarations; op_family (300 cases: 1760 rejected + 630 accepted operator parses through both entry points, each "
+          "rejected one followed by a good parse + run in the same context): all verdicts, codes and positions of the typing model "
+          "agree with the library (positions follow repair 443d77e: a left operand ill-typed on its own is reported before the "
+          "right one is parsed). ~4.9k sequences."),
+    design_ref="DESIGN.md §6 C15, §11, §12.3, §13, notes/NOTES-C15.md, notes/NOTES-r15.md, notes/NOTES-C15R3.md, notes/NOTES-C15R4.md",
+    note=("PARTIAL. Memory reclamation is NOT modelled: 'a rejected parse leaves nothing allocated' / 'no memory remains' is "
+          "LeakSanitizer's verdict on the generated texts and sequences (1760 rejected operator parses, 37 hand texts, 522 "
+          "truncations, ~900 random rejected parses per run), not a theorem; leak records are attributed by allocation call site, a "
+          "record at the site of a REPAIRED finding is a violation. 5 findings open (errno 0 on EOF, store nulls scalar sources, "
+          "item pointers dangle after store, use-after-free when an executable/clone holding a function outlives the declaring "
+          "context's purge/free, leak of the wrapper node at end of text after a member call — needs an ownership hand-over); "
+          "repaired: the two accessor null dereferences, the callee-context leak, and this round the left-operand leak pattern of "
+          "the 17 binary productions (443d77e), the IF condition (d070b9e), RETURN at end of text (c0de6cd); 1 candidate recorded by "
+          "C14's index-linking model and not exercised here. The 10 accepted `matches` texts have no AST and are skipped; a value "
+          "loaded from one context cannot be stored into another in the model (two-context copy/move family not built). bloc_break "
+          "from a second thread, trace and plugins are outside. " + TRUST + "."),
+    technique="Lean 4 proof over a transcribed state machine (case analysis over 38 ops + invariants by induction on sequences; rejected texts generated from the typing model) "
               "+ model-based differential testing with sanitizers; leak attribution by allocation call-site signature")
 
 CHECKS["C16"] = dict(
@@ -449,39 +484,40 @@ CHECKS["C17"] = dict(
           "elements built before a later repetition raises (87d5eeb)."),
     technique="Lean 4 proof over a hand model (invariant over operation sequences; simulation by induction on fuel with per-instruction lemmas) + bounded-exhaustive and random model-based testing with an instrumented plugin under AddressSanitizer")
 
-# NOTE: the two C++-level failures named below (utf8 reserve, csv null last element) were repaired in /repo by 2b1dab4 / ad063b9;
-# csv_plugin_args_total / utf8_methods_total and the last sentence of `note` describe the model as it stands in
-# lean/BlocV/Model/Mod: reword the three places when the model follows the repairs.
 CHECKS["C18"] = dict(
     category="proof",
-    text=("All four modules by Lean 4 proof (BlocV.Proofs.C18 + C18F, 63) + differential runs on the real code. csv: csv_roundtrip "
-          "(every row other than the single empty field, every field content, every separator != encapsulator), csv_linewise; the "
-          "PLUGIN glue (plugin_csv.cpp) is modelled: csv_plugin_ctor, csv_plugin_roundtrip, csv_plugin_next_core (deserialize_next "
-          "hands only T.last to the parser), csv_plugin_linewise, csv_plugin_args_total (every call, every table state: value or "
-          "BLOC error, fault exactly at a null last element of deserialize_next). utf8: decode_illformed (for EVERY byte string the byte-at-a-time "
-          "decoder = the look-ahead RFC 3629 decoder `take a well-formed sequence else drop one byte`, NULs removed), "
-          "decode_valid_agrees, count/at/substr/insert/remove/string = list functions, utf8_methods_total / utf8_history_total "
-          "(15 plugin methods, every argument, whole histories: representation invariant kept, no out-of-bounds, C++-level failure "
-          "exactly reserve(n) beyond max_size / memory). file: file_refines_spec (EVERY list of read/readln/write/seek/position/"
-          "flush calls on every open handle = the POSIX-level Spec/FileSpec run, outside the recorded update-stream region; "
-          "file_refines_spec_oneway unconditional without `+`), file_readln_spec / file_readln_all (line = up to LF, at most 4096 "
-          "bytes per call), file_write_read_roundtrip + _concat, readLoop_eq, file_args_total. sqlite3: sqlite_args_total, "
-          "sqlite_value_roundtrip + sqlite_roundtrip_iff (exact exception list: boolean, NaN, empty buffer-less bytes, typed nulls, "
-          "objects), sqlite_stepfail_rebind / _exec (a constraint failure of execute() does not poison the prepared statement). "
-          "Tie: exhaustive small-alphabet run of the real classes (harness/modprobe.cpp, ~517k cases) and ~2.7k histories through the "
-          "REAL .so modules (ASan+UBSan, one BLOC statement per call: u8.plugin_ops/_self/_reserve, csv.plugin(_rt), file.bufedge, "
-          "sql.stepfail, self-insert) with independent oracles: Python reading the file, Python's sqlite3, a Python CSV writer, the "
-          "Lean stream spec answering every file call."),
-    design_ref="DESIGN.md §6 C18, §11, §12, notes/NOTES-C18.md, notes/NOTES-C18F.md, notes/NOTES-r18.md",
+    text=("All four modules by Lean 4 proof (BlocV.Proofs.C18 + C18F, 77) + differential runs on the real code. csv: csv_roundtrip, "
+          "csv_linewise; the PLUGIN glue modelled: csv_plugin_ctor, csv_plugin_roundtrip, csv_plugin_next_core (for tables WITH null "
+          "elements), csv_plugin_next_null_last, csv_plugin_linewise, csv_plugin_args_total — UNCONDITIONAL since repair ad063b9: no "
+          "call of the method table in any state reaches a C++-level fault. utf8: decode_illformed (EVERY byte string: byte-at-a-time "
+          "decoder = look-ahead RFC 3629 decoder), decode_valid_agrees, count/at/substr/insert/remove/string = list functions, "
+          "utf8_methods_total / utf8_history_total (15 methods, every argument, whole histories: invariant kept, one answer per "
+          "call, never a fault — unconditional since 2b1dab4) with utf8_reserve_exact (closed form of reserve); toupper / tolower "
+          "over the real character table as a parameter: utf8_case_agrees, utf8_case_total, utf8_append_after_transform + "
+          "utf8_transform_sticky_witness (the transformation stays installed: recorded finding). file: file_refines_spec (EVERY list "
+          "of stream calls = the POSIX-level spec run, outside the update-stream region), file_refines_spec_repositioned (side "
+          "condition discharged from the SHAPE of the history: every switch of direction goes through a seek), "
+          "file_update_roundtrip, file_readln_spec / _all, file_write_read_roundtrip + _concat, file_args_total. sqlite3: "
+          "sqlite_args_total, sqlite_value_roundtrip + sqlite_roundtrip_iff, sqlite_history_refines_spec (ALL bind / execute / exec / "
+          "fetch histories on a prepared INSERT, failing steps anywhere = a one-slot specification), sqlite_rows_function_of_binds, "
+          "sqlite_bind_after_any_history. Tie: exhaustive small-alphabet run of the real classes (harness/modprobe.cpp, ~517k) and "
+          "~4.6k histories through the REAL .so modules (ASan+UBSan): u8.plugin_ops/_self/_reserve (under an operator new that "
+          "throws above a limit)/_case (whole real char table), csv.plugin/_rt/_nulllast, file.bufedge, file.modepairs (12 modes x "
+          "64 op pairs, half also run by Python os.*), sql.stepfail, sql.history + every sqlite line against the spec; oracles: "
+          "Python reading file and database, a Python CSV writer, the Lean stream spec answering every file call."),
+    design_ref="DESIGN.md §6 C18, §11, §12, §13, notes/NOTES-C18.md, notes/NOTES-C18F.md, notes/NOTES-r18.md, notes/NOTES-C18R3.md",
     note=(TRUST + "; glibc stdio and SQLite (their behaviour is what the models' fread/fwrite/fseek and storage classes say; tested, "
-          "not proved); harness/blocprobe + harness/modprobe + vlib comparators. Assumed: one handle per file, regular files, writes "
-          "< 2^32 bytes; fopen modes with the glibc flag `m` or `,ccs=` are outside the model; SQL fixed to CREATE TABLE t(a) | "
-          "t(a NOT NULL) / INSERT / SELECT shapes; utf8 texts fit 2^64 bytes. Not modelled / not proved: utf8 charmap "
-          "transformations, csv serializers for tuples / numeric tables, stat/dir/errmsg, dirname/basename; the strict RFC decoder is "
-          "related to the encoder by test only. Findings of round 2: C18.utf8_reserve_unchecked, C18.csv_next_null_last_element — "
-          "both repaired in /repo (2b1dab4, ad063b9), the two theorems above still characterise the unrepaired calls; open: utf8 NUL dropped, four sqlite storage-class cells, file update stream "
-          "without reposition."),
-    technique="Lean 4 proof over hand models (round trip, sequence-level refinement of a POSIX specification by induction over call lists, exact hazard-region characterisation, decoder equivalence by strong induction) + exhaustive / randomised differential correspondence on the real classes and the real plugin .so files with independent readers")
+          "not proved); harness/blocprobe + modprobe + newlimit.cpp (AddressSanitizer's operator new never throws: the bad_alloc "
+          "branch of reserve is reached through a preloaded operator new; recorded as an assumption) + vlib comparators. Assumed: "
+          "one handle per file, regular files, writes < 2^32 bytes; fopen modes with the glibc flag `m` or `,ccs=` outside the "
+          "model; SQL fixed to CREATE TABLE t(a) | t(a NOT NULL) / INSERT / SELECT shapes, the history theorem is for a prepared "
+          "INSERT; `Disciplined` is conservative (only seekset inside the file counts as positioning). Not modelled / not proved: utf8 "
+          "normalize / capitalize / translit, csv serializers for tuples / numeric tables, stat/dir/errmsg, dirname/basename; the "
+          "strict RFC decoder is related to the encoder by test only. Open: C18.utf8_transform_sticky (new), utf8 NUL dropped, four "
+          "sqlite storage-class cells, file update stream without reposition (now also: a read on a write-only stream with output "
+          "pending). Repaired and closed this round: C18.utf8_reserve_unchecked, C18.csv_next_null_last_element (regression "
+          "witnesses; reverting either commit makes the check exit 1)."),
+    technique="Lean 4 proof over hand models (round trip, sequence-level refinement of POSIX and one-slot SQL specifications by induction over call lists, unconditional totality of the method tables, decoder equivalence by strong induction) + exhaustive / randomised differential correspondence on the real classes and the real plugin .so files with independent readers")
 
 CHECKS["C19"] = dict(
     category="proof",
